@@ -69,6 +69,12 @@ claim('C19', 'reference-model monitor on Panel.calc_kA / calc_cA / StiffPanelBay
       'and damping parts symmetric (beta and gamma separated by two executions); linearity; flow-y vs flow-x on the axis-exchanged panel; Mach/density/speed route vs explicit coefficients; the bay matrix vs its first panel and vs the stated form.',
       'gamma exercised for flow x only (the flow-y kernel has no curvature term; the statement does not fix that case); control group with w free on a flow edge judged on structure/linearity only', '4/C19')
 
+claim('C11', 'reference-model monitor on Panel / PanelAssembly / StiffPanelBay field recovery: every returned value compared with a numpy evaluation of the Ritz series from ctypes basis values; bit-exact invariance under permutation, batching and thread count',
+      'uvw, phix/phiy, the six strains (NLterms on and off as requested) and the six stress resultants returned by the real methods are compared point by point (1e-11 of sum|c_k||basis_k|) with '
+      'the series and the Donnell relations evaluated independently; stress against F times the strains of the same request; shuffled / one-at-a-time / other-thread-count executions must be bit-identical; '
+      'assembly groups and bay skin/stiffener regions must use their own slice of the amplitude vector (stiffeners of all three kinds in mixed insertion order).',
+      'ctypes basis functions (judged exactly by C10); PanelAssembly fields are evaluated on its default linspace grids', '4/C11')
+
 ALL = ['C%02d' % i for i in range(1, 21)]
 PENDING_REASON = 'check not built yet in this round (runtime-monitoring plan in DESIGN.md section 4); will be claimed once its monitor runs silent on the unchanged tree'
 
